@@ -116,6 +116,9 @@ def loop_protocol(ctx, F):
                 e = n(d)
                 if e[0] == "bin" and e[1] == "Eq" and C(0) in (e[2], e[3]) and (e[2] in pay or e[3] in pay):
                     zero = (taken == "otherwise") if vals == [0] else bool(taken)
+                elif e in pay and vals == [0]:
+                    # `Ok(0) => ..` as a literal pattern: a switch on the payload itself
+                    zero = taken != "otherwise"
             ups = [c for c in p.calls if c[1].endswith("GeneratorType::update")]
             fins = [c for c in p.calls if c[1].endswith("GeneratorType::finalize") or c[1].endswith("GeneratorType::finalize_with_options")]
             if zero is None:
@@ -267,8 +270,13 @@ def wrappers(ctx, F):
         err_paths = 0
         for p in rets:
             e = n(p.ret)
+            errp = ("field", ("variant", openc, "Err"), 0)
             if e == ("call", "<core::result::Result<T, F> as core::ops::FromResidual<core::result::Result<core::convert::Infallible, E>>>::from_residual",
-                     (("field", ("variant", br, "Break"), 0),)):
+                     (("field", ("variant", br, "Break"), 0),)) or e in (
+                    ("agg", "adt:core::result::Result::Err", (("agg", "adt:errors::GeneratorOrIOError::IOError", (errp,)),)),
+                    ("agg", "adt:core::result::Result::Err", (("call", "core::convert::From::from", (errp,)),)),
+                    ("agg", "adt:core::result::Result::Err", (("call", "<T as core::convert::Into<U>>::into", (errp,)),))):
+                # `?` on File::open, or the same written as a match: the open error becomes IOError
                 err_paths += 1
                 continue
             m = match(("call", CF, (("ref", V("g")), ("ref", V("f")))), e)
@@ -277,7 +285,7 @@ def wrappers(ctx, F):
                 fresh = len(ds) == 1 and ds[0][1] == "term" and (ds[0][2]["callee"].get("path") or "").endswith("Generator::<T>::new")
                 fv = p.env["locals"].get(m["f"][1])
                 # the file local was mutated by the &mut borrow; its previous value is the Continue payload of open()
-                is_file = fv is not None and bool(find_all(n(fv) if fv[0] != "mutated" else n(fv[3]) if len(fv) > 3 and fv[3] else ("x",), lambda x: x == ("field", ("variant", br, "Continue"), 0)))
+                is_file = fv is not None and bool(find_all(n(fv) if fv[0] != "mutated" else n(fv[3]) if len(fv) > 3 and fv[3] else ("x",), lambda x: x in (("field", ("variant", br, "Continue"), 0), ("field", ("variant", openc, "Ok"), 0))))
                 if fresh and is_file:
                     ok_paths += 1
         ctx.ob(r, ("hash_file_for", "open-then-common"), ok_paths == 1 and err_paths == 1 and len(rets) == 2,
